@@ -872,4 +872,65 @@ end Encoder
 
 end C11
 
+-- ====================================================================== 6. C03 at the level of the files
+section C03
+open TLX.Ingest
+
+theorem keptOf_merge (k : Container.Item → Bool) (its : List Container.Item) :
+    ∀ X : List (Item Keylog.Key), X.length = its.length →
+      Merge (keptOf (fun it => !k it) its X) (keptOf k its X) X := by
+  induction its with
+  | nil => intro X h; cases X with | nil => exact .nil | cons _ _ => simp at h
+  | cons it its ih =>
+    intro X h
+    cases X with
+    | nil => simp at h
+    | cons x X =>
+      have := ih X (by simpa using h)
+      simp only [keptOf]
+      by_cases hk : k it = true
+      · simp only [hk, Bool.not_true, Bool.false_eq_true, if_false, if_true]
+        exact Merge.right x this
+      · have hk' : k it = false := by simpa using hk
+        simp only [hk', Bool.not_false, if_true, Bool.false_eq_true, if_false]
+        exact Merge.left x this
+
+/-- **C03, whole program, file to file (TLS bystanders).** `capC`: a capture the run reads to the end; `victim`: any
+    choice of reader items (the victim's packet blocks: TCP on its flows, UDP / QUIC, garbage, frames that make ITS
+    session raise — but nothing that makes the READ LOOP raise: `hC`) that bring no key material (`hk`) and share no TCP
+    flow with the rest (`hd`); `capB`: a capture whose reader delivers the remaining items. Then the capture without the
+    victim is read to the end too, and the TLS conversations of the bystanders are exported from the full capture EXACTLY as
+    from the capture without the victim: the per-conversation frame blocks of the `capB` run appear intact and in order
+    among the blocks of the `capC` run (the others are the victim's), and both outputs are these blocks concatenated,
+    followed by the QUIC part. -/
+theorem export_bystander_unaffected_file (prior : Export.Prior) (args : Args) (o : Opts) (ho : optsOf args = some o)
+    (legacy legacy' : Bool) (kl : Option Keylog.Str) (capC capB : Bytes) (its : List Container.Item)
+    (victim : Container.Item → Bool)
+    (hrC : Container.readPrefix legacy capC = .ok (its, none))
+    (hrB : Container.readPrefix legacy' capB = .ok (its.filter fun it => !victim it, none))
+    (X : List (Item Keylog.Key)) (IS : List (Nat × Pipeline.Info))
+    (hC : go Keylog.srcHexClass args.checksumTest 0 its = .ok (X, IS))
+    (hd : ∀ a ∈ tcpView o (keptOf (fun it => !victim it) its X), ∀ b ∈ tcpView o (keptOf victim its X),
+      sameFlow a b = false)
+    (hk : dsbOnly (keptOf victim its X) = []) :
+    ∃ XB ISB blocksC quicB quicC,
+      Ingest.itemsWith Keylog.srcHexClass args.checksumTest legacy capC = .ok (X, IS) ∧
+      Ingest.itemsWith Keylog.srcHexClass args.checksumTest legacy' capB = .ok (XB, ISB) ∧
+      framesFrom mask H P prior args (fileKeysOf kl) XB (Ingest.lookup ISB) =
+        .ok ((tlsFrames H P (Ingest.lookup ISB) o (fileKeysOf kl) XB).flatten ++ quicB) ∧
+      framesFrom mask H P prior args (fileKeysOf kl) X (Ingest.lookup IS) = .ok (blocksC.flatten ++ quicC) ∧
+      Merge (tlsFrames H P (Ingest.lookup ISB) o (fileKeysOf kl) XB)
+        ((tlsConvs H P (Ingest.lookup IS) o (keptOf victim its X)).map
+          (convFrames H P (Ingest.lookup IS) (keysOf (fileKeysOf kl) X))) blocksC := by
+  obtain ⟨XB, ISB, g1, g2⟩ := go_filter args.checksumTest (fun it => !victim it) its 0 0 X IS hC
+  have hm := keptOf_merge victim its X (go_length _ its 0 X IS hC)
+  have hby := export_bystander_unaffected H P (Ingest.lookup IS) o (fileKeysOf kl) hm hd hk
+  rw [tlsFrames_alike H P (Ingest.lookup IS) (Ingest.lookup ISB) o (fileKeysOf kl) g2] at hby
+  refine ⟨XB, ISB, _, _, _, ?_, ?_, framesFrom_explicit mask H P _ prior args _ XB o ho,
+    framesFrom_explicit mask H P _ prior args _ X o ho, hby⟩
+  · unfold Ingest.itemsWith; rw [hrC]; simp only [hC]
+  · unfold Ingest.itemsWith; rw [hrB]; simp only [g1]
+
+end C03
+
 end TLX.Props.ExportInputs2
